@@ -138,7 +138,9 @@ func tokSpaces(r *Run) []space {
 	return []space{{name: "tokparam/bytes", gen: byteTrie{sig, L}, cfgs: cfgs, beyondErr: 2, beyondOk: 2, split: 2},
 		{name: "tokparam/frags", gen: seqTrie{Menu: bs("branch", "=", "z9hG4bK", ";", " ", "\r\n ", "\"q\\\"\"", "lr", "&", ",", "%", "4"), K: r.pick(5, 6), Term: append(bs("?", " x", ",x"), hdrEnds...)},
 			cfgs: []Cfg{{Flags: uint(sipsp.POptTokSpTermF), HdrCap: -1, ValCap: -1}, {Flags: uint(sipsp.POptTokCommaTermF | sipsp.POptParamSemiSepF), HdrCap: -1, ValCap: -1},
-				{Flags: uint(sipsp.POptTokURIParamF), HdrCap: -1, ValCap: -1}, {Flags: uint(sipsp.POptTokURIHdrF), HdrCap: -1, ValCap: -1}}, beyondErr: 2, beyondOk: 1, split: 2}}
+				{Flags: uint(sipsp.POptTokURIParamF), HdrCap: -1, ValCap: -1}, {Flags: uint(sipsp.POptTokURIHdrF), HdrCap: -1, ValCap: -1},
+				// the same fragment sequences behind a start offset (returned offsets are compared with it)
+				{Flags: uint(sipsp.POptTokCommaTermF | sipsp.POptParamSemiSepF), Offs: 5, Junk: "a", HdrCap: -1, ValCap: -1}, {Flags: uint(sipsp.POptTokURIParamF), Offs: 3, Junk: "crlf", HdrCap: -1, ValCap: -1}}, beyondErr: 2, beyondOk: 1, split: 2}}
 }
 
 func uriListSpaces(r *Run, hdrs bool) []space {
@@ -163,7 +165,7 @@ func uriListSpaces(r *Run, hdrs bool) []space {
 	cfgs = append(cfgs, Cfg{Flags: flagsets[0] | uint(sipsp.POptInputEndF), ValCap: 2, HdrCap: -1, EndMode: true}, Cfg{Flags: flagsets[len(flagsets)-1] | uint(sipsp.POptInputEndF), ValCap: -1, HdrCap: -1, EndMode: true})
 	menu := bs("transport", "=", "udp", ";", "&", "lr", "TTL", "1", " ", "\r\n ", "\"q\"", "maddr", "x", "%", "4")
 	return []space{{name: "urilist/bytes", gen: byteTrie{sig, L}, cfgs: cfgs, beyondErr: 2, beyondOk: 2, split: 2, finalFlags: []uint{uint(sipsp.POptInputEndF)}},
-		{name: "urilist/frags", gen: seqTrie{Menu: menu, K: r.pick(4, 5), Term: append(bs("?", " x", ","), hdrEnds...)}, cfgs: cfgs[:3], beyondErr: 2, beyondOk: 1, split: 2,
+		{name: "urilist/frags", gen: seqTrie{Menu: menu, K: r.pick(4, 5), Term: append(bs("?", " x", ","), hdrEnds...)}, cfgs: append(append([]Cfg(nil), cfgs[:3]...), Cfg{Flags: flagsets[0], ValCap: 2, HdrCap: -1, Offs: 5, Junk: "a"}), beyondErr: 2, beyondOk: 1, split: 2,
 			finalFlags: []uint{uint(sipsp.POptInputEndF)}}}
 }
 
@@ -175,10 +177,10 @@ func flineSpaces(r *Run) []space {
 	d := r.pick(7, 9)
 	var subs []TrieGen
 	for _, p := range []string{"AAAAAAA", "AAA AAA ", "AAA AAA AAA", "INVITE sip:a SIP/2.0"} {
-		subs = append(subs, prefixedTrie{[]byte(p), byteTrie{[]byte("A \t\r\n"), d}})
+		subs = append(subs, prefixedTrie{[]byte(p), byteTrie{[]byte("A \t\r\n\x07"), d}})
 	}
 	for _, p := range []string{"SIP/2.0 ", "SIP/2.0 2", "SIP/2.0 200 ", "sip/2.0 ", "SIP/2.0 200 OK"} {
-		subs = append(subs, prefixedTrie{[]byte(p), byteTrie{[]byte("2A \r\n"), d}})
+		subs = append(subs, prefixedTrie{[]byte(p), byteTrie{[]byte("2A \r\n\x07"), d}})
 	}
 	return []space{{name: "fline/prefixed-bytes", gen: unionTrie{subs}, cfgs: []Cfg{{HdrCap: -1, ValCap: -1}, {Offs: 5, Junk: "crlf", HdrCap: -1, ValCap: -1}, {Offs: 33, Junk: "crlf", HdrCap: -1, ValCap: -1}}, beyondErr: 2, beyondOk: 2, split: 2}}
 }
@@ -232,6 +234,7 @@ var hdrLineMenuFull = []string{
 	"Content-Length\t: 2\r\n",
 	"m \t: <sip:x@y>;expires=3\r\n",
 	"CSeq : 5 ACK\r\n",
+	"CSeq: 7 3PCC\r\n",
 	"Subject: lone\rY: cr\r\n",
 	"Z: lf\n",
 	// malformed
